@@ -17,11 +17,13 @@ RULE = ("per named curve: d in {1, 2, 3, n-1, n-2, 256^(l-1)-1, 256^(l-1), 256^(
         "attributes); out-of-range secret exponents; base64/PEM armour on all short inputs and odd line structures. "
         "distinct = operation line; non-trivial = every case with a valid key (all but the out-of-range ones)")
 ASSUMPTIONS = [
-    "Q = dG is a parameter of the model (Ext.pubPoint: the real code's point is handed to the model); its correctness "
-    "is C07; the search checks it against independent affine arithmetic",
-    "base64.b64decode is a parameter of the theorems (round trip b64decode(b64encode x) = x is the hypothesis); the "
-    "driver uses a concrete model of CPython's lenient decoder, which the correspondence checks against the real one",
-    "DER primitive round trips are C11's theorems",
+    "generic theorems: Q = dG (Ext.pubPoint), the square root and base64.b64decode are parameters with their contracts as "
+    "hypotheses; all_round_trips_model discharges them on the composed model (C07 via GroupInterface with the base-point "
+    "order checked by the kernel, C15.sqrt_spec, and the proved inverse property of the model of CPython's lenient "
+    "decoder), leaving only: p and n prime for the curves of the table",
+    "the real base64 module is an external function: the correspondence compares the decoder model with it on ~6000 "
+    "strings per run, the search compares to_pem with an independent RFC 7468 armour",
+    "DER primitive round trips are C11's theorems (Proofs/Der*.lean)",
 ]
 
 
